@@ -28,7 +28,7 @@ def seg_table(bops):
     for o in bops:
         if o["op"] == "bp.insert":
             fk = o["fn"] if isinstance(o["fn"], str) else o["fn"]["name"]
-            nm = o["name"]["s"] if o.get("name") else fk
+            nm = o["name"]["s"] if o.get("name") else {"gsc": "gaussian_smooth_cutoff"}.get(fk, fk)
             raw.append((nm, fk))
     names = canonical_names([basename(n) for n, _ in raw])
     return [(n, fk) for n, (_, fk) in zip(names, raw)]
